@@ -207,7 +207,7 @@ class Check:
             return 'unknown'
         # z3 prints its internal "divisor known to be non-zero" operators; they coincide with the SMT-LIB ones there
         for a, b in (('bvudiv_i', 'bvudiv'), ('bvurem_i', 'bvurem'), ('bvsdiv_i', 'bvsdiv'), ('bvsrem_i', 'bvsrem'),
-                     ('bvsmod_i', 'bvsmod')):
+                     ('bvsmod_i', 'bvsmod'), ('ubv_to_int', 'bv2nat'), ('int_to_bv', 'int2bv')):
             txt = txt.replace(a, b)
         with open(path, 'w') as f:
             f.write('(set-logic ALL)\n' + txt)
@@ -251,6 +251,34 @@ class Check:
         self.decided_by[decided_by] = self.decided_by.get(decided_by, 0) + 1
         return res, model, dt
 
+    def solve_int(self, constraints, timeout_ms=None, goal=()):
+        """the query translated exactly into non-linear integer arithmetic (mirsym.intify); a sat answer is mapped back to
+        the original variables and re-validated against the original constraints"""
+        from . import intify
+        t0 = time.time()
+        self.queries += 1
+        budget = min(timeout_ms or self.timeout_ms, 30000)
+        res, payload, itf = intify.solve(list(constraints) + list(G.facts), budget, goal=list(goal))
+        out = ('unknown', payload)
+        if res == 'unsat':
+            out = ('unsat', None)
+            self.decided_by['z3 (integer translation)'] = self.decided_by.get('z3 (integer translation)', 0) + 1
+        elif res == 'sat':
+            s = z3.Solver()
+            s.set('timeout', 20000)
+            for c in list(constraints) + list(goal):
+                s.add(c)
+            for c in G.facts:
+                s.add(c)
+            for name, (orig, val) in payload.items():
+                s.add(orig == z3.BitVecVal(val, orig.size()))
+            if s.check() == z3.sat:
+                out = ('sat', s.model())
+                self.decided_by['z3 (integer translation)'] = self.decided_by.get('z3 (integer translation)', 0) + 1
+        dt = time.time() - t0
+        self.solver_s += dt
+        return out[0], out[1], dt
+
     # ---- parallel discharge of independent obligations ----------------------------------------------------
     def _smt2_text(self, constraints):
         s = z3.Solver()
@@ -270,7 +298,7 @@ class Check:
             p2 = path[:-5] + '.cvc5.smt2'
             t2 = txt
             for a, b in (('bvudiv_i', 'bvudiv'), ('bvurem_i', 'bvurem'), ('bvsdiv_i', 'bvsdiv'), ('bvsrem_i', 'bvsrem'),
-                         ('bvsmod_i', 'bvsmod')):
+                         ('bvsmod_i', 'bvsmod'), ('ubv_to_int', 'bv2nat'), ('int_to_bv', 'int2bv')):
                 t2 = t2.replace(a, b)
             with open(p2, 'w') as f:
                 f.write(t2)
@@ -372,7 +400,7 @@ class Check:
         self.solver_s += dt
         return verdict[0], verdict[1], dt
 
-    def obligation(self, name, pc, claim, inputs=None, replay=None, bound='', describe=None, kind='FUNC', split=None, abstract=None):
+    def obligation(self, name, pc, claim, inputs=None, replay=None, bound='', describe=None, kind='FUNC', split=None, abstract=None, arith=None):
         """pc: list of z3 Bool; claim: z3 Bool that must hold under pc.
         inputs: {name: z3 term} (for known-finding regions and counterexample printing).
         replay(model) -> (reproduced: bool, request dict, observation) ; required for reporting."""
@@ -386,7 +414,17 @@ class Check:
             region_terms.append((e, rt))
         excl = [z3.Not(rt) for _, rt in region_terms]
         res = None
-        if abstract:
+        if arith == 'int':
+            res, model, dt = self.solve_int(list(pc) + excl, goal=[neg])
+            if res == 'unsat':
+                rec['translation'] = 'decided in pure integer arithmetic (bit-vectors as integers mod 2^w, quotients by division lemma)'
+            elif res != 'sat':
+                # no fall-back to the bit-vector portfolio: with the exact-arithmetic function symbols in play its `sat`
+                # answers would be artefacts of leaving them uninterpreted
+                res, model = 'unknown', 'integer translation undecided: %s' % (model,)
+        if res is not None:
+            pass
+        elif abstract:
             # normalise with one rewriter first (the explored terms are partly simplified already), then abstract
             t0a = time.time()
             cs = abstract_ops([z3.simplify(c) for c in list(pc) + [neg] + excl + list(G.facts)], abstract)
@@ -511,6 +549,14 @@ class Check:
         if res != 'sat':
             raise Inconclusive('vacuity guard %s is not satisfiable (%s)' % (name, res))
         return model
+
+    def cover_int(self, name, constraints):
+        """vacuity guard decided through the integer translation (falls back to the ordinary portfolio)"""
+        res, model, dt = self.solve_int(list(constraints))
+        if res == 'sat':
+            self.covers.append({'id': name, 'reachable': True, 'solver_s': round(dt, 3)})
+            return model
+        return self.cover(name, constraints)
 
     def cover_any(self, name, alternatives):
         """vacuity guard over several outcome states: at least one (pc, cond) must be satisfiable"""
